@@ -3,7 +3,7 @@
 # Confirms an independently seeded change: patch applies to HEAD, demonstration passes without
 # and fails with the change (in the seed's scratch worktree), then runs our check against it.
 seed=$1; id=${seed:0:3}; demo=$2; dest=$3; shift 3
-wt=/var/tmp/seed-$seed; out=/var/tmp/seed-out-$seed
+wt=${SEED_WT:-/var/tmp/seed-$seed}; out=${SEED_OUT:-/var/tmp/seed-out-$seed}
 cd $wt || exit 2
 git checkout -q -- . ; git checkout -q --detach $(git -C /repo rev-parse HEAD) 2>/dev/null
 [ -n "$(git status --porcelain)" ] && { echo "worktree dirty"; git status --short | head; }
